@@ -323,7 +323,15 @@ def run(A, R: Report, thorough: bool):
     # loads of a `uses` item: recursive prepare_context calls that pass a namespace (the final call that merges the loaded contexts passes
     # the list only) - written in prepare_context itself (loop or comprehension) or in a method of Context it calls
     def _is_load(c_):
-        return isinstance(c_, ast.Call) and src(c_.func).split('.')[-1] == 'prepare_context' and (len(c_.args) >= 2 or any(kw.arg == 'namespace' for kw in c_.keywords))
+        if not (isinstance(c_, ast.Call) and src(c_.func).split('.')[-1] == 'prepare_context' and (len(c_.args) >= 2 or any(kw.arg == 'namespace' for kw in c_.keywords))):
+            return False
+        # the dispatch over an iterable of contexts given by the caller (elements of the first parameter) is no `uses` load
+        first = c_.args[0] if c_.args else None
+        if isinstance(first, ast.Name):
+            for b_ in A.typer.own_nodes(fpc):
+                if isinstance(b_, (ast.comprehension, ast.For)) and any(isinstance(x, ast.Name) and x.id == first.id for x in ast.walk(b_.target)) and fpc.params[0] in {x.id for x in ast.walk(b_.iter) if isinstance(x, ast.Name)}:
+                    return False
+        return True
     loads = [n for n in A.typer.own_nodes(fpc) if _is_load(n)]
     helper_loads = []
     for n_ in A.typer.own_nodes(fpc):
